@@ -235,7 +235,7 @@ def _b(v):
 
 class Setting:
     def __init__(self, name, kind, shared, backends, bridge, observe, model, values=None, domain=None, aux=None,
-                 file_spellings=("snake", "kebab"), placements=("struct", "impl", "mod")):
+                 file_spellings=("snake", "kebab"), placements=("struct", "impl", "mod", "stacked")):
         self.name, self.kind, self.shared, self.backends, self.bridge = name, kind, shared, backends, bridge
         self.observe, self.model, self.values, self.domain = observe, model, values, domain
         self.aux = aux or (lambda b: [])
@@ -262,7 +262,7 @@ DEMO_SPELLINGS = ("snake", "kebab", "table-snake/key-kebab", "table-kebab/key-sn
 SETTINGS = OrderedDict((s.name, s) for s in [
     Setting("lib_name", "str", True, ["kotlin", "nanobind"], BRIDGE_MAIN, obs_lib_name, lambda b, v: "lib=" + v,
             values=lambda src, sc, asp: "lib" + src[0] + sc[0],
-            aux=lambda b: ["kotlin.domain=dev.verif"] if b == "kotlin" else [], placements=("struct",)),
+            aux=lambda b: ["kotlin.domain=dev.verif"] if b == "kotlin" else [], placements=("struct", "stacked")),
     Setting("kotlin.domain", "str", False, ["kotlin"], BRIDGE_MAIN, obs_domain, lambda b, v: "domain=" + v,
             values=lambda src, sc, asp: "dattr" if (src == "attr" and asp == "bare") else "org.d" + src,
             aux=lambda b: ["lib_name=auxlib"]),
@@ -281,11 +281,11 @@ SETTINGS = OrderedDict((s.name, s) for s in [
     Setting("demo_gen.hide_default_renderer", "bool", False, ["demo_gen"], BRIDGE_MAIN, obs_demo_hide,
             lambda b, v: "hide=" + _b(v), domain=(False, True), file_spellings=DEMO_SPELLINGS),
     Setting("unsafe_references_in_callbacks", "bool", True, ALL7, BRIDGE_CB, obs_unsafe_refs,
-            lambda b, v: "accept" if v else "reject", domain=(False, True), aux=_aux_lib, placements=("struct",)),
+            lambda b, v: "accept" if v else "reject", domain=(False, True), aux=_aux_lib, placements=("struct", "stacked")),
 ])
 
 QUICK = ["lib_name", "kotlin.domain", "js.abi", "kotlin.use_finalizers_not_cleaners", "demo_gen.module_name",
-         "demo_gen.relative_js_path", "demo_gen.explicit_generation", "demo_gen.hide_default_renderer"]
+         "demo_gen.relative_js_path", "demo_gen.explicit_generation", "demo_gen.hide_default_renderer", "unsafe_references_in_callbacks"]
 
 
 # ---------------------------------------------------------------------------------------------
@@ -312,12 +312,18 @@ def _subsets(xs):
             yield c
 
 
+QUICK_MAX_PRESENT = {"unsafe_references_in_callbacks": 3}   # quick tier: lattice points with at most this many slots present
+
+
 def enumerate_cases(setting, tier):
     """every lattice point of one setting (all backends); pure function of (setting, tier)"""
     s = setting
     out = []
+    cap = QUICK_MAX_PRESENT.get(s.name) if tier == "quick" else None
     for backend in s.backends:
         for present in _subsets(s.slots()):
+            if cap is not None and len(present) > cap:
+                continue
             has = {src: [sl for sl in present if sl[0] == src] for src in SOURCES}
             fsps = s.file_spellings if has["file"] else (None,)
             asps = s.attr_spellings if has["attr"] else (None,)
@@ -386,19 +392,30 @@ def materialize(case):
     # attr
     pre = ""
     i = 0
+    stacked = []
     for sl in order:
         if sl[0] != "attr":
             continue
         v = case["assign"][sl]
         vs = _b(v) if isinstance(v, bool) else ('"%s"' % v if case["asp"] == "quoted" else v)
         a = "#[diplomat::config(%s = %s)]\n" % (s.key(b, sl[1]), vs)
-        if case["placement"] == "struct":
+        if case["placement"] == "stacked":
+            stacked.append(a)
+        elif case["placement"] == "struct":
             pre += a + "pub struct VerifCfg%d;\n\n" % i
         elif case["placement"] == "impl":
             pre += "pub struct VerifCfg%d;\n\n" % i + a + "impl VerifCfg%d {}\n\n" % i
         else:
             pre += a + "mod verif_cfg%d {}\n\n" % i
         i += 1
+    if stacked:
+        # every attribute of this case on ONE item, behind an unrelated config attribute that is written first
+        # (a key that cannot influence what is observed for this setting / backend)
+        if s.name.startswith("kotlin.") or b == "kotlin":
+            lead = '#[diplomat::config(demo_gen.module_name = "stackaux")]\n'
+        else:
+            lead = '#[diplomat::config(kotlin.domain = "dev.stack")]\n'
+        pre += lead + "".join(stacked) + "pub struct VerifCfgStack;\n\n"
     return pre + s.bridge, ftxt, cli
 
 
